@@ -542,6 +542,108 @@ fn run_rsa(c: &RsaCase) -> Outcome {
     o
 }
 
+/// One operation on an encrypting message builder.
+#[derive(Clone, Copy, Debug, Hash, PartialEq, Eq, Serialize, Deserialize)]
+pub enum BuilderOp {
+    /// encrypt_to_key(recipient key i)
+    Key(u8),
+    /// encrypt_to_key_anonymous(recipient key i)
+    AnonKey(u8),
+    /// encrypt_with_password(password i)
+    Pw(u8),
+    /// set_session_key(fixed key number i of the right length)
+    SetSessionKey(u8),
+    /// set_session_key with a key of the wrong length
+    SetBadSessionKey,
+}
+
+#[derive(Clone, Debug, Hash, Serialize, Deserialize)]
+pub struct SeqCase {
+    pub v2: bool,
+    pub ops: Vec<BuilderOp>,
+}
+
+/// E3: every sequence of recipient / session-key operations on one builder.  Whatever the order,
+/// and whichever operations the builder refuses: every recipient whose operation was ACCEPTED
+/// opens the finished message.
+fn run_seq(c: &SeqCase) -> Outcome {
+    use pgp::composed::MessageBuilder;
+    use pgp::crypto::aead::{AeadAlgorithm, ChunkSize};
+    let kinds = if c.v2 { [KeyKind::Ed25519V6, KeyKind::EcdsaP256V6] } else { [KeyKind::Ed25519V4, KeyKind::EcdsaP256V4] };
+    let certs: Vec<_> = kinds.iter().map(|k| common::cert(*k, 3)).collect();
+    let payload = b"sequence payload".to_vec();
+    let b0 = MessageBuilder::from_bytes("", payload.clone());
+    let mut accepted: Vec<BuilderOp> = Vec::new();
+    macro_rules! drive {
+        ($b:expr, $v2:tt) => {{
+            for (i, op) in c.ops.iter().enumerate() {
+                let rng = crate::engine::rng(600 + i as u64);
+                let ok = match *op {
+                    BuilderOp::Key(k) => $b.encrypt_to_key(rng, certs[k as usize].secret_subkeys[0].key.public_key()).is_ok(),
+                    BuilderOp::AnonKey(k) => $b.encrypt_to_key_anonymous(rng, certs[k as usize].secret_subkeys[0].key.public_key()).is_ok(),
+                    BuilderOp::Pw(p) => {
+                        let s2k = StringToKey::new_iterated(crate::engine::rng(700 + i as u64), HashAlgorithm::Sha256, 0);
+                        let pw = Password::from(msg::PASSWORDS[p as usize % 3]);
+                        drive!(@pw $b, $v2, rng, s2k, &pw)
+                    }
+                    BuilderOp::SetSessionKey(n) => $b.set_session_key(vec![0x60 + n; 16].into()).is_ok(),
+                    BuilderOp::SetBadSessionKey => $b.set_session_key(vec![0x77; 15].into()).is_ok(),
+                };
+                if ok {
+                    accepted.push(*op);
+                }
+            }
+            $b.to_vec(crate::engine::rng(999)).map_err(|e| e.to_string())
+        }};
+        (@pw $b:expr, true, $rng:expr, $s2k:expr, $pw:expr) => {
+            $b.encrypt_with_password($rng, $s2k, $pw).is_ok()
+        };
+        (@pw $b:expr, false, $rng:expr, $s2k:expr, $pw:expr) => {{
+            let _ = &$rng;
+            $b.encrypt_with_password($s2k, $pw).is_ok()
+        }};
+    }
+    let built = if c.v2 {
+        let mut b = b0.seipd_v2(crate::engine::rng(5), SymmetricKeyAlgorithm::AES128, AeadAlgorithm::Ocb, ChunkSize::default());
+        drive!(b, true)
+    } else {
+        let mut b = b0.seipd_v1(crate::engine::rng(5), SymmetricKeyAlgorithm::AES128);
+        drive!(b, false)
+    };
+    let what = format!("SEIPDv{} builder, operations {:?} (accepted: {:?})", if c.v2 { 2 } else { 1 }, c.ops, accepted);
+    if accepted.contains(&BuilderOp::SetBadSessionKey) {
+        return Outcome::bad("C18:builder-sequence:session-key-of-wrong-length-accepted", what);
+    }
+    let bytes = match built {
+        Ok(b) => b,
+        // a builder without any recipient may refuse to finish
+        Err(_) if !accepted.iter().any(|o| matches!(o, BuilderOp::Key(_) | BuilderOp::AnonKey(_) | BuilderOp::Pw(_))) => return Outcome::ok("no-recipient:refused"),
+        Err(e) => return Outcome::bad("C18:builder-sequence:build-error", format!("{what}: {e}")),
+    };
+    let mut o = Outcome::ok(format!("{} accepted", accepted.len()));
+    // several SKESK v4 packets: one password can make another packet look plausible (recorded
+    // finding); the sequences use at most one password for SEIPDv1
+    for op in &accepted {
+        let opened: Result<Vec<u8>, String> = (|| {
+            let m = Message::from_bytes(&bytes[..]).map_err(|e| e.to_string())?;
+            let mut m = match *op {
+                BuilderOp::Key(k) | BuilderOp::AnonKey(k) => m.decrypt(&Password::empty(), &certs[k as usize]).map_err(|e| e.to_string())?,
+                BuilderOp::Pw(p) => m.decrypt_with_password(&Password::from(msg::PASSWORDS[p as usize % 3])).map_err(|e| e.to_string())?,
+                _ => return Ok(payload.clone()),
+            };
+            let mut out = Vec::new();
+            m.read_to_end(&mut out).map_err(|e| e.to_string())?;
+            Ok(out)
+        })();
+        o.evals += 1;
+        match opened {
+            Ok(d) if d == payload => {}
+            other => o.push("C18:builder-sequence:accepted-recipient-cannot-decrypt", format!("{what}: recipient of {op:?}: {:?}", other.map(|d| d.len()))),
+        }
+    }
+    o
+}
+
 pub fn check(ctx: &Ctx) {
     // the former thorough bounds take seconds: they are the quick tier now; `deep` = thorough
     let quick = false;
@@ -752,6 +854,39 @@ pub fn check(ctx: &Ctx) {
         rc.into_par_iter(),
         run_rsa,
     );
+    // builder operation sequences
+    let mut qc = Vec::new();
+    for v2 in [false, true] {
+        let mut alphabet = vec![BuilderOp::Key(0), BuilderOp::AnonKey(1), BuilderOp::Key(1), BuilderOp::Pw(0), BuilderOp::SetSessionKey(1), BuilderOp::SetSessionKey(2), BuilderOp::SetBadSessionKey];
+        if v2 {
+            alphabet.push(BuilderOp::Pw(1));
+        }
+        let max = if deep { 4 } else { 3 };
+        let mut seqs: Vec<Vec<BuilderOp>> = vec![vec![]];
+        let mut frontier: Vec<Vec<BuilderOp>> = vec![vec![]];
+        for _ in 0..max {
+            let mut next = Vec::new();
+            for s in &frontier {
+                for op in &alphabet {
+                    let mut s2 = s.clone();
+                    s2.push(*op);
+                    next.push(s2);
+                }
+            }
+            seqs.extend(next.iter().cloned());
+            frontier = next;
+        }
+        for ops in seqs {
+            qc.push(SeqCase { v2, ops });
+        }
+    }
+    ctx.run_space(
+        "builder_operation_sequences",
+        true,
+        "E3: EVERY sequence of up to 3 (thorough 4) operations out of {encrypt_to_key(A), encrypt_to_key_anonymous(B), encrypt_to_key(B), encrypt_with_password(p) (SEIPDv2: two passwords), set_session_key(k1), set_session_key(k2), set_session_key(wrong length)} on one SEIPDv1 / SEIPDv2 builder, whichever of them the builder refuses: every recipient whose operation was accepted opens the finished message; a session key of the wrong length is never accepted",
+        qc.into_par_iter(),
+        run_seq,
+    );
     ctx.assume("RingResult slots are not part of the oracle (the property does not speak of them)");
 }
 
@@ -760,6 +895,7 @@ pub fn replay(space: &str, case: &Value) -> Option<Outcome> {
         "recipient_sets_x_presented_secrets" => replay_as(case, run),
         "skesk_v4_false_accept" => replay_as(case, run_false_accept),
         "rsa_ciphertext_lengths" => replay_as(case, run_rsa),
+        "builder_operation_sequences" => replay_as(case, run_seq),
         _ => None,
     }
 }
